@@ -169,31 +169,34 @@ def main(prop, cfg, args, chk):
     diffs, crashed, nt = compare(outs, items)
     os.makedirs(os.path.join(VERIF, 'replays'), exist_ok=True)
     reported = None
-    if crashed:
-        # find the scenario that kills the configuration: bisect by running scenarios one chunk at a time is overkill; run singly from the last digest written
-        name, rc, txt = crashed[0]
+    # candidate scenarios, earliest first: where a configuration aborted (a sanitizer build stops exactly at the culprit, a plain
+    # build may notice heap damage only later) and where digests differ
+    cands = []
+    for name, rc, txt in crashed:
         out = outs[name][0]
         done = os.path.getsize(out) // 9 if os.path.exists(out) else 0
         if done < len(items):
-            diffs = [(done, {name: 'aborted: ' + txt[-400:].replace('\n', ' | ')})] + diffs
-    if diffs:
-        idx, ds = diffs[0]
-        path = os.path.join(VERIF, 'replays', '%s-%s.case' % (prop, hashlib.sha256(items[idx]).hexdigest()[:10]))
-        open(path, 'wb').write(items[idx])
-        # confirm three times on the single scenario
-        ok = 0
-        one = os.path.join(root, 'one.bin')
+            cands.append((done, {name: 'aborted: ' + txt[-400:].replace('\n', ' | ')}))
+    cands += diffs[:3]
+    cands.sort(key=lambda c: c[0])
+    one = os.path.join(root, 'one.bin')
+    for idx, ds in cands[:6]:
         write_corpus(one, [items[idx]])
+        ok = 0
         for k in range(3):
             o2 = digest_all(one, 'confirm%d' % k)
             d2, c2, _ = compare(o2, [items[idx]])
             if d2 or c2:
                 ok += 1
         if ok == 3:
+            path = os.path.join(VERIF, 'replays', '%s-%s.case' % (prop, hashlib.sha256(items[idx]).hexdigest()[:10]))
+            open(path, 'wb').write(items[idx])
             reported = (path, ds)
             violations.append(path)
-        else:
-            log('note: digest difference at scenario %d reproduced only %d/3 times (not reported)' % (idx, ok))
+            break
+        log('note: scenario %d (digest difference or abort) reproduced only %d/3 times on its own (not reported)' % (idx, ok))
+    if crashed and not reported:
+        log('note: %d configuration(s) aborted during the corpus run but no single scenario reproduces it' % len(crashed))
     wall = time.time() - t0
     # evidence
     samples = []
